@@ -725,8 +725,17 @@ let judge_hcall f =
       (match api_decode (hexb (get f "patch")) with
        | None -> S "patch"
        | Some ops ->
-         let o = mk_opts (get f "flags") 0 in
-         let r = api_apply o (hexb (get f "indent")) ops (bytes_of_string a) in
+         let o = mk_opts (get f "flags") (if has f "limit" then int_of_string (get f "limit") else 0) in
+         let run o = api_apply o (hexb (get f "indent")) ops (bytes_of_string a) in
+         let is_ok_res = (match String.split_on_char ':' res with ["ok"; "000000"; _] -> true | _ -> false) in
+         let is_out r = (match r with ROut _ -> true | _ -> false) in
+         (* a copied null may be counted as 0 or 4 bytes (see judge_apply): take the variant that agrees *)
+         let r = (let r0 = run o in
+                  if is_out r0 = is_ok_res then r0 else
+                  let r1 = run { o with o_nullsz = Some (z_of_int 0) } in
+                  if is_out r1 = is_ok_res then r1 else
+                  let r2 = run { o with o_nullsz = Some (z_of_int 4) } in
+                  if is_out r2 = is_ok_res then r2 else r0) in
          (match String.split_on_char ':' res, r with
           | ["ok"; "000000"; h], ROut mb ->
             let out = unhex h in
